@@ -54,6 +54,12 @@ PROGRAMS = {
                                       b'STORE * +FLAGS (\\Flagged)',
                                       b'MOVE * INBOX'],
                            lambda i: []),
+    # the session holds a delivered message that still lies in new/ (it got
+    # its UID from this session's NOOP) and cleans up
+    'CHECK-holding-new': (lambda i: [b'SELECT INBOX', b'#DELIVER', b'NOOP'],
+                          lambda i: [b'CHECK'], lambda i: []),
+    'NOOP-holding-new': (lambda i: [b'SELECT INBOX', b'#DELIVER', b'NOOP'],
+                         lambda i: [b'NOOP'], lambda i: []),
     # a maildir folder made by another program: no dovecot-uidlist yet
     'APPEND-raw': (lambda i: [], lambda i: [b'APPEND raw ' +
                                             mt.lit(mt.body('r%d' % i))],
@@ -69,6 +75,8 @@ EXTRA_PAIRS = [('APPEND', 'CHECK'), ('COPY', 'CHECK'), ('MOVE', 'CHECK'),
                ('MOVE-self', 'SELECT'), ('MOVE-out-back', 'NOOP'),
                ('MOVE-out-back', 'SELECT'), ('MOVE-out-back', 'CHECK'),
                ('MOVE-out-flag-back', 'NOOP'), ('MOVE-out-flag-back', 'SELECT'),
+               ('CHECK-holding-new', 'SELECT'), ('NOOP-holding-new', 'SELECT'),
+               ('CHECK-holding-new', 'EXPUNGE'),
                ('APPEND-raw', 'APPEND-raw'), ('APPEND-raw', 'SELECT-raw'),
                ('SELECT-raw', 'SELECT-raw')]
 
@@ -115,6 +123,19 @@ def judge(layout, names, deliver, ex, info):
                 v('message-two-uids',
                   f'{nm}: the one message {t} is listed under UIDs '
                   f'{[u for u, x in rows if x == t]}')
+    # a message keeps its UID (dump taken after the prologues vs. final)
+    if info.get('before'):
+        for nm, ent in info['before'].items():
+            if ent is None or final.get(nm) is None:
+                continue
+            fin_by_tok: dict = {}
+            for u, t in final[nm][2]:
+                fin_by_tok.setdefault(t, []).append(u)
+            for u, t in ent[2]:
+                if t in fin_by_tok and u not in fin_by_tok[t] and t != '?':
+                    v('uid-changed', f'{nm}: {t} had UID {u} (UIDVALIDITY '
+                      f'{ent[0]}), now {fin_by_tok[t]} (UIDVALIDITY '
+                      f'{final[nm][0]})')
     # every session agrees on what each UID denotes
     for i, view in enumerate(info['views']):
         for nm, ent in view.items():
